@@ -3,6 +3,8 @@ import JivaVerif.Drv.Controller
 import JivaVerif.Drv.Rpc
 import JivaVerif.Drv.Rest
 import JivaVerif.Drv.Crash
+import JivaVerif.Model.Locks
+import JivaVerif.Generated.Locks
 def main (args : List String) : IO Unit := do
   match args with
   | ["replica"] => Jiva.Drv.replicaMain
@@ -10,4 +12,12 @@ def main (args : List String) : IO Unit := do
   | ["rpc"] => Jiva.Drv.rpcMain
   | ["rest"] => Jiva.Drv.restMain
   | ["crash"] => Jiva.Drv.crashMain
-  | _ => IO.eprintln "usage: drv replica|ctl|rpc|rest|crash"
+  | ["locks"] =>
+    -- the lock-event sequences the checker rejects, with the names of the locks (for the replay of C14)
+    let evName := fun (k : Nat) => ["Lock", "Unlock", "RLock", "RUnlock", "call-of-a-function-that-Locks", "call-of-a-function-that-RLocks"].getD k "?"
+    let off := Jiva.Locks.offenders Jiva.Gen.lockPaths
+    for (f, p) in off do
+      IO.println (f ++ ": " ++ " ; ".intercalate (p.map fun e => evName e.1 ++ " " ++ Jiva.Gen.lockNames.getD e.2 "?"))
+    for s in Jiva.Gen.lockSkipped do IO.println ("not analysed: " ++ s)
+    IO.println s!"functions={Jiva.Gen.lockPaths.length} sequences={(Jiva.Gen.lockPaths.map (·.2.length)).sum} rejected={off.length}"
+  | _ => IO.eprintln "usage: drv replica|ctl|rpc|rest|crash|locks"
